@@ -181,7 +181,7 @@ void run(Ctx &ctx, const std::string &w) {
         else if (str(again.path()) != str(uri.path())) {
             const std::string p = str(uri.path());
             bool clean = true; for (unsigned char ch : p) if (!isPchar(ch) && ch != '/' && ch != '?') clean = false;
-            if (p.find('?') != std::string::npos) ctx.violation("uri:reparse-path-differs:query", "path " + vh::show(p) + " became " + vh::show(str(again.path())) + " via canonical form " + vh::show(canon));
+            if (clean && p.find('?') != std::string::npos) ctx.violation("uri:reparse-path-differs:query", "path " + vh::show(p) + " became " + vh::show(str(again.path())) + " via canonical form " + vh::show(canon));
             else if (clean) ctx.violation("uri:reparse-path-differs", "path " + vh::show(p) + " became " + vh::show(str(again.path())) + " via canonical form " + vh::show(canon));
             else ctx.count("reparse_path_normalised");
         }
@@ -273,7 +273,9 @@ void run(Ctx &ctx, const std::string &w) {
     if (!againOk && canon.size() >= MAX_URL) {
         // percent-encoding made the canonical form longer than the parser's own limit: the '?' -> %3F expansion is the
         // same defect as the query key; growth from encoding non-URI characters is normalisation (not judged)
-        if (str(uri.path()).find('?') != std::string::npos) ctx.violation("uri:reparse-path-differs:query", "canonical form grows to " + std::to_string(canon.size()) + " bytes ('?' percent-encoded) and is rejected");
+        // (only when the '?' really was encoded; since the repair 383b82e it is not)
+        if (str(uri.path()).find('?') != std::string::npos && canon.find("%3F") != std::string::npos && c.uri.find("%3F") == std::string::npos && c.uri.find("%3f") == std::string::npos)
+            ctx.violation("uri:reparse-path-differs:query", "canonical form grows to " + std::to_string(canon.size()) + " bytes ('?' percent-encoded) and is rejected");
         else ctx.count("canonical_form_too_long");
         return;
     }
@@ -287,7 +289,7 @@ void run(Ctx &ctx, const std::string &w) {
     else if (str(again.path()) != str(uri.path())) {
         const std::string p = str(uri.path());
         bool clean = true; for (unsigned char ch : p) if (!isPchar(ch) && ch != '/' && ch != '?') clean = false;
-        if (p.find('?') != std::string::npos)
+        if (clean && p.find('?') != std::string::npos)
             ctx.violation("uri:reparse-path-differs:query", "path " + vh::show(p) + " became " + vh::show(str(again.path())) + " via canonical form " + vh::show(canon) + " ('?' percent-encoded: /a?b and /a%3Fb collide)");
         else if (clean)
             ctx.violation("uri:reparse-path-differs" + sfx, "path " + vh::show(p) + " became " + vh::show(str(again.path())) + " via canonical form " + vh::show(canon));
